@@ -432,7 +432,13 @@ def zipAdd (it : Iter) (d1 d2 : Deque) (x y : Nat) (m : Mem) : Stat × Iter × D
   let e2 := if d2.cap = d2.size then d2.expandCapacity e1.2.2 else (.ok, d2, e1.2.2)
   if e2.1 != .ok then (.errAlloc, it, e1.2.1, e2.2.1, e2.2.2) else
   let a1 := e1.2.1.addAt x it.index e2.2.2
+  if a1.1 != .ok then (a1.1, it, a1.2.1, e2.2.1, a1.2.2) else
   let a2 := e2.2.1.addAt y it.index a1.2.2
+  if a2.1 != .ok then
+    -- both or none: take the first element out again (D13)
+    let r := a1.2.1.removeAt it.index a2.2.2
+    (a2.1, it, r.2.2.1, a2.2.1, r.2.2.2)
+  else
   (.ok, { it with index := it.index + 1 }, a1.2.1, a2.2.1, a2.2.2)
 
 /-- `cc_deque_zip_iter_remove` -/
@@ -469,7 +475,8 @@ def zipRemoveSelf (it : Iter) (d : Deque) (m : Mem) : Stat × Option Nat × Opti
   (.ok, r1.2.1, r2.2.1, { index := it.index - 1, lastRemoved := true }, r2.2.2.1, r2.2.2.2)
 
 /-- `cc_deque_zip_iter_add` with `d1 == d2`: both growth tests look at the one deque, then two `add_at`
-calls at the same index follow; the status of the second (which may have to grow again) is ignored -/
+calls at the same index follow; the second may have to grow again, and if it fails the first element is
+taken out again (D13) -/
 def zipAddSelf (it : Iter) (d : Deque) (x y : Nat) (m : Mem) : Stat × Iter × Deque × Mem :=
   if it.index ≥ d.size ∨ it.index ≥ d.size then (.errOutOfRange, it, d, m) else
   let e1 := if d.cap = d.size then d.expandCapacity m else (.ok, d, m)
@@ -477,7 +484,13 @@ def zipAddSelf (it : Iter) (d : Deque) (x y : Nat) (m : Mem) : Stat × Iter × D
   let e2 := if e1.2.1.cap = e1.2.1.size then e1.2.1.expandCapacity e1.2.2 else (.ok, e1.2.1, e1.2.2)
   if e2.1 != .ok then (.errAlloc, it, e2.2.1, e2.2.2) else
   let a1 := e2.2.1.addAt x it.index e2.2.2
+  if a1.1 != .ok then (a1.1, it, a1.2.1, a1.2.2) else
   let a2 := a1.2.1.addAt y it.index a1.2.2
+  if a2.1 != .ok then
+    -- both or none (D13): the second insertion had to grow and was refused; `d1` is the same object
+    let r := a2.2.1.removeAt it.index a2.2.2
+    (a2.1, it, r.2.2.1, r.2.2.2)
+  else
   (.ok, { it with index := it.index + 1 }, a2.2.1, a2.2.2)
 
 /-- `cc_deque_zip_iter_replace` with `d1 == d2`: the second replacement overwrites the first -/
